@@ -57,7 +57,12 @@ WIDER = {"uint8": ["uint8", "uint16", "uint32", "uint64", "float32"],
 def gen_cases(tier, seed):
     rnd = random.Random(f"C13:{seed}")
     n = 240 if tier == "quick" else 4000
-    return [{"cseed": rnd.randrange(2 ** 32)} for _ in range(n)]
+    cases = [{"cseed": rnd.randrange(2 ** 32)} for _ in range(n)]
+    # directed: destinations spread over more than 64 shards (the converter walks the grid
+    # in raster order and comes back to shards it has left long ago)
+    for k in range(3 if tier == "quick" else 12):
+        cases.append({"cseed": rnd.randrange(2 ** 32), "directed": "many_shards"})
+    return cases
 
 
 def _chunks(sc):
@@ -95,6 +100,9 @@ def run_case(case):
         src_sharded = rnd.random() < 0.35
         dst_mode = rnd.choice(["info", "info", "info", "copy"])
         dst_sharded = rnd.random() < 0.4
+        many = case.get("directed") == "many_shards"
+        if many:
+            src_sharded, dst_mode, dst_sharded = rnd.random() < 0.3, "info", True
         cubic = src_sharded or dst_sharded or rnd.random() < 0.3
         sdt = rnd.choice(DTYPES)
         senc = "compressed_segmentation" if sdt in ("uint32", "uint64") and rnd.random() < 0.4 \
@@ -103,7 +111,12 @@ def run_case(case):
         scales = []
         for i in range(rnd.choice([1, 2, 3])):
             size = [rnd.randint(1, 22) for _ in range(3)]
-            if cubic:
+            if many:
+                size = [rnd.choice([31, 32]), rnd.choice([15, 16]), rnd.choice([8, 9])]
+                size = [max(1, x >> i) for x in size]
+            if many:
+                cs = [2, 2, 2]
+            elif cubic:
                 c = rnd.choice([2, 4, 8])
                 cs = [c, c, c]
             else:
@@ -158,6 +171,10 @@ def run_case(case):
             dinfo = copy.deepcopy(sinfo)
             dinfo["data_type"] = ddt
             dcfg = shardlib.gen_config(rnd, "quick")
+            if many:
+                dcfg.update({"minishard_bits": rnd.choice([0, 1]), "shard_bits": 7,
+                             "preshift_bits": rnd.choice([0, 1])})
+                obs["many_shards_destinations"] = 1
             for sc in dinfo["scales"]:
                 sc["encoding"] = denc
                 sc.pop("compressed_segmentation_block_size", None)
@@ -263,6 +280,7 @@ def gates(obs, tier):
         and obs.get("sharded_dst", 0) > 5,
         "encoding_changes": obs.get("encoding_change", 0) > 10,
         "multi_scale": obs.get("scales", 0) > obs.get("conversions", 0),
+        "destinations_with_more_than_64_shards": obs.get("many_shards_destinations", 0) > 0,
         "monitors_active_inside_the_command_processes": obs.get("child_processes", 0) > 50
         and obs.get("child_write_chunk_events", 0) > 1000
         and obs.get("child_contract_evaluations", {}).get("compressed_morton_code", 0) > 100,
